@@ -323,6 +323,10 @@ def rule_g(ctx):
                             and isinstance(c.func.value, ast.Call) and norm(c.func.value.func) == "super":
                         sup = ctx.hier.resolve(q, "_validate_value", after=q)
                         ok = "super()._validate_value (%s)" % (sup.qualname if sup else "?")
+                    elif isinstance(c.func, ast.Attribute) and c.func.attr == "_validate_value" and isinstance(c.func.value, ast.Name) \
+                            and ctx.hier.resolve_name(f.module, c.func.value.id) in ctx.hier.mro(q)[1:] \
+                            and ctx.hier.is_subclass(ctx.hier.resolve_name(f.module, c.func.value.id), tq):
+                        ok = "%s._validate_value(self, ...)" % c.func.value.id
             if ok:
                 ctx.ok("R01.g", f, u, "iteration of `%s` is preceded by %s" % (val, ok))
             else:
